@@ -32,7 +32,7 @@ COMPONENTS = {"real": ["run_timeseries, run_control, OutputWriter incl. batch re
                                                "recording/failing run wrapper", "TimeseriesModel replica"]}
 ASSUMPTIONS = ["the replica applies each controller's documented per-step update (time_step) and runs a fresh runpp / "
                "rundcpp on scrubbed state", "a failed step is not value-compared; every later step is",
-               "values: |a-b| <= 1e-6 + 1e-6|b|"]
+               "values: |a-b| <= 5e-5 + 5e-5|b| (two solver runs from different start points, each stopped at 1e-8 MVA)"]
 REACH_PROBES = ["recycled_power_flow_executed", "batch_read_path_taken", "only_v_results", "intermediate_dump",
                 "step_failed_then_next_step_checked", "second_run_on_same_net", "line_parameter_controlled",
                 "multi_index_controller"]
@@ -595,7 +595,9 @@ def _exec_run(net, op, ow_op, i, ctx, ctrl_desc, tmpdir, owm):
             else:
                 w = want.loc[cols].values.astype(float)
             got = df.loc[t, cols].values.astype(float)
-            d = oracles.compare_arrays(got, w, 1e-6, 1e-6)
+            # live (recycled: started from the previous step) and fresh (default start) are two runs of an
+            # iterative solver stopped at tolerance_mva=1e-8: on a 0.25 MVA transformer that is 4e-6 % loading
+            d = oracles.compare_arrays(got, w, 5e-5, 5e-5)
             any_compared = True
             if d:
                 kind = "step after failure differs" if prev_failed else \
